@@ -10,9 +10,9 @@ COQ_EXTRA = ['theories/Generated/K_gfx_selftest.vo', 'theories/Generated/K_gff_s
 MODEL = ('ExC17', ['c17_ops.ml', 'c17_main.ml'])
 MONITOR = ('MonC17', ['c17_ops.ml', 'c17_mon_main.ml'])
 SIZES = [8192, 4096, 256, 256, 4352]
-RULE = ('case = initial contents of the five regions + a history of 1-30 accessor calls (all 18 accessors), arguments '
+RULE = ('case = initial contents of the five regions + a history of 1-80 accessor calls (all 18 accessors), arguments '
         'concentrated on the edges (crossing the right/bottom edge by 0, 1, many cells; ids at 0/15/16/240/255; TRANSPARENT '
-        'pixels; ragged rows; None fields); implementation run on a real Game object, every returned value and the whole '
+        'pixels; ragged rows; blocks of 140 rows or columns, offsets up to 1000; None fields); implementation run on a real Game object, every returned value and the whole '
         'memory after the history compared with the extracted model (correspondence) and with Spec/PlainMem.v through '
         'holds_C17_seq (monitor); a separate stream of out-of-contract calls checks that model and implementation raise '
         'alike. evaluations = accessor calls; distinct+non-trivial = distinct (op kind, arguments) that either return a '
@@ -37,19 +37,21 @@ CLAIM = dict(
           "at that offset if the ragged block has a non-TRANSPARENT value there and its old value otherwise (read-back, "
           "frame, clipping, transparency in one per-cell equation). Get-after-set laws: C17_pixel_readback, C17_cell_readback (incl. the shared "
           "rows), C17_mapget_after_mapset, C17_flagget_after_flagreset, C17_noteget_after_noteset (None fields keep their "
-          "value), C17_changet_after_chanset. Bit-level facts are complete vm_compute sweeps over the regenerated kernels "
+          "value), C17_changet_after_chanset. C17_refines_nogfx / C17_nogfx_refuses: a Map without a Gfx behaves identically "
+          "on calls confined to rows 0-31 and refuses cell accesses below. C17_monitor_sound / C17_model_holds(_seq): the "
+          "extracted monitor predicate says exactly 'no raise, the plain model's value and memory', and the code's model "
+          "passes it on every call and history. Bit-level facts are complete vm_compute sweeps over the regenerated kernels "
           "(all bytes, all byte pairs for flags, all 65,536 note words, all note-field updates); loops by induction with "
           "invariants. Tie: kernels (index expressions, masks, clip tests, asserts) regenerated from gfx.py, map.py, "
           "gff.py, sfx.py, music.py on every run and self-tested in Coq; the hand-modelled loops are run extracted against "
           "the real Game object on generated edge-biased histories (values after every call and the whole memory), and "
           "the extracted plain model (holds_C17_seq, built from Spec/ only) judges the implementation's real observations."),
-    note=("Three clipping defects found by this check were repaired in the implementation (findings/known_C17.json, fixed): "
+    note=("Three clipping defects found by this check were repaired in the implementation (findings/known_findings.json, fixed): "
           "set_sprite clipped with > 128 (column 128 wrapped into the next row, row 128 raised IndexError), set_rect_tiles "
           "clipped rows with > 127 (AssertionError below row 63), get_rect_tiles asserted instead of zero-filling below the "
           "map. Trusted: Coq kernel+VM, translator, extraction, OCaml glue, Spec/PlainMem.v as a faithful reading of the "
           "docstrings and the PICO-8 memory layout, the in_contract ranges. Out-of-contract calls are only compared "
-          "model-vs-implementation (exception kinds); a Map without a Gfx attached (has_gfx = false) is in the model and "
-          "the correspondence but not in the theorems."),
+          "model-vs-implementation (exception kinds)."),
     technique='Coq refinement proof (sweeps on regenerated kernels + induction over loops) + correspondence + extracted plain model as monitor',
     design_ref='8 C17')
 OPS_GET = ['gs', 'mgc', 'mgr', 'fg', 'sgn', 'sgp', 'mugc', 'mugp']
@@ -86,6 +88,17 @@ def _rows(rng, maxw, maxh, lo, hi, transparent=None):
     return '/'.join(lib.hx(r) for r in rows) if rows else '.'
 
 
+def _rows_big(rng, n, lo, hi, transparent=None):
+    """a block much larger than the sheet / map in one direction: n rows of 1-3 values or 1-3 rows of n values"""
+    def val():
+        return transparent if transparent is not None and rng.random() < 0.2 else rng.randrange(lo, hi + 1)
+    if rng.random() < 0.5:
+        rows = [bytes(val() for _ in range(rng.randrange(1, 4))) for _ in range(n)]
+    else:
+        rows = [bytes(val() for _ in range(n)) for _ in range(rng.randrange(1, 4))]
+    return '/'.join(lib.hx(r) for r in rows)
+
+
 def _opt(rng, hi):
     return 'N' if rng.random() < 0.3 else str(rng.choice([0, hi, rng.randrange(0, hi + 1)]))
 
@@ -96,6 +109,13 @@ def gen_op(rng, contract=True):
     ids = [0, 1, 14, 15, 16, 17, 127, 128, 239, 240, 241, 254, 255]
     if k == 'gs':
         return 'gs,%d,%d,%d' % (rng.choice(ids), rng.choice([1, 2, 3, 16, 17]), rng.choice([1, 2, 3, 16, 17]))
+    if k == 'ss' and rng.random() < 0.06:
+        # far offsets and blocks larger than the whole sheet (everything beyond the edges must be clipped)
+        return 'ss,%d,%d,%d,%s' % (rng.choice(ids), rng.choice([0, 5, 64, 119, 127, 128, 1000]),
+                                   rng.choice([0, 5, 64, 119, 127, 128, 1000]), _rows_big(rng, 140, 0, 15, 16))
+    if k == 'msr' and rng.random() < 0.06:
+        return 'msr,%d,%d,%s' % (rng.choice([0, 1, 100, 127, 128, 1000]), rng.choice([0, 1, 31, 32, 63, 64, 1000]),
+                                 _rows_big(rng, 140, 0, 255))
     if k == 'ss':
         return 'ss,%d,%d,%d,%s' % (rng.choice(ids + [rng.randrange(256)]), rng.choice([0, 0, 1, 3, 7, 8, 9]),
                                    rng.choice([0, 0, 1, 3, 7, 8, 9]), _rows(rng, 20, 20, 0, 15, 16))
@@ -145,7 +165,7 @@ def generate(tier, rng):
     n = 350 if tier == 'quick' else 8000
     kinds = ['random', 'random', 'zero', 'ff', 'ramp']
     for i in range(n):
-        ln = rng.choice([1, 2, 5, 12, 30])
+        ln = rng.choice([1, 2, 5, 12, 30, 30, 80])
         yield {'hasgfx': 1, 'mem': [lib.hx(r) for r in _mem(rng, rng.choice(kinds))],
                'ops': [gen_op(rng) for _ in range(ln)]}
     for i in range(60 if tier == 'quick' else 600):
